@@ -25,8 +25,8 @@ class C05(ProgramProperty):
     id = "C05"
     theorems = ["C05_step", "C05_reject", "C05_shape", "C05_resolves", "C05_addPrefix", "C05_histories", "C05_fresh",
                 "C05_histories_fresh", "C05_lookup_structures", "C05_reject_iff", "C05_afterAdd", "C05_afterAdd_reject",
-                "C05_records_refine"]
-    lean_modules = ["CuriesVerif.Properties.C05"]
+                "C05_records_refine", "C05_advertised_histories"]
+    lean_modules = ["CuriesVerif.Properties.C05", "CuriesVerif.Properties.Advertised"]
     rule = ("one case = a strict start converter and a history of 1-8 (thorough: up to 20) add_record / add_prefix "
             "operations with random case_sensitive / merge flags; each new record is fresh or overlaps existing "
             "records in one of the sixteen ways _match_record distinguishes (new canonical / new synonym x existing "
@@ -100,6 +100,13 @@ class C05(ProgramProperty):
             for m in SNAPSHOT:
                 steps.append(q(0, m))
             steps.append(q(0, "delimiter"))
+            # what the converter advertises after the call is what it resolves (C05_advertised_histories): the names of the
+            # new record (whether the call was accepted, merged or rejected) and of an older one are fed back
+            steps += [q(0, "get_prefixes", s=True), q(0, "get_prefixes"), q(0, "get_uri_prefixes", s=True)]
+            older = cur[(7 * k) % len(cur)]      # no draw from rng: the histories generated for a seed stay what they were
+            for name in dict.fromkeys([uncps(new["u"])] + [uncps(x) for x in new["us"]] + [uncps(older["u"])]
+                                      + [uncps(x) for x in older["us"]]):
+                steps.append(q(0, "parse_uri", name))
             steps.append({"op": "fresh", "dst": 1, "src": 0})
             steps += [q(1, "records"), q(1, "delimiter")]
             probes_u = gen.uri_probes(rng, cur, 4) + [uncps(new["u"]) + "1"] + [uncps(x) + "z" for x in new["us"]]
@@ -223,6 +230,28 @@ class C05(ProgramProperty):
                         fails.append(f"{st['op']}(case_sensitive={st.get('cs', True)}, merge={st.get('merge', False)}) raised {v!r} "
                                      f"although the new record matches {len(hits)} existing record(s)")
                 cur = None
+        # (4) advertised = resolved, after every call (C05_advertised_histories evaluated on the implementation's answers)
+        adv = {}
+        for st, v in zip(steps, impl):
+            if st["op"] in ("add_record", "add_prefix") and st.get("c") == 0:
+                adv = {}
+            if st["op"] != "q" or st["c"] != 0 or (isinstance(v, dict) and ("e" in v or "bad" in v)):
+                continue
+            if st["m"] in ("get_prefixes", "get_uri_prefixes"):
+                adv[(st["m"], bool(st.get("s")))] = pyval(v)
+            elif st["m"] == "standardize_prefix" and not st.get("s") and not st.get("p"):
+                name, ans = uncps(st["a"][0]), pyval(v)
+                for key, want in ((("get_prefixes", True), ans is not None), (("get_prefixes", False), ans == name)):
+                    if key in adv and (name in adv[key]) != want:
+                        fails.append(f"get_prefixes(include_synonyms={key[1]}) {'lists' if name in adv[key] else 'does not list'} "
+                                     f"{name!r} but standardize_prefix answers {ans!r}")
+            elif st["m"] == "parse_uri" and not st.get("s") and len(st.get("a", [])) == 1:
+                name, ans = uncps(st["a"][0]), pyval(v)
+                key = ("get_uri_prefixes", True)
+                consumed = isinstance(ans, tuple) and ans[1] == ""
+                if key in adv and (name in adv[key]) != consumed:
+                    fails.append(f"get_uri_prefixes(include_synonyms=True) {'lists' if name in adv[key] else 'does not list'} "
+                                 f"{name!r} but parse_uri answers {ans!r}")
         # fresh comparison
         by = {}
         for st, v in zip(steps, impl):
